@@ -760,7 +760,7 @@ theorem wrapper_source_shape :
     ewResSrc = .coordSpan "x" "shape[1]" ∧ nsResSrc = .coordSpan "y" "shape[0]" ∧
     obsRowSrc = .nearestThenEq "y" ∧ obsColSrc = .nearestThenEq "x" ∧
     rangeChecks = [("x", "ValueError"), ("y", "ValueError")] ∧
-    viewpointElevSrc = "raster.values[obs:row, obs:col] + observer_elev" ∧
+    viewpointElevSrc = "float(raster.values[obs:row, obs:col]) + observer_elev" ∧
     viewpointTargetSrc = "target_elev if target_elev > 0 else 0.0" ∧
     rasterCast = "raster.values.astype(np.float64)" ∧ rasterCastBeforeInit = true ∧
     initEventListArgs = [("event_list", "zeros:events"), ("raster", "raster.values:float64"), ("vp_row", "obs:y"),
